@@ -56,8 +56,16 @@ Proof. exact dsc_reply_length. Qed.
 Print Assumptions C18_session_reply.
 
 (* only 2006, 2013, 2020 are accepted as edition on a configuration change *)
-Theorem C18_edition_values : forall cfgv st now v,
+Theorem C18_edition_values : forall cfgv st now v, (6 < List.length cfgv)%nat ->
   let '(out, cfgv', _, _) := step_op cfgv st now (OSetCfg 6 v) in
   (mem v iso_editions = true -> out = []) /\ (mem v iso_editions = false -> out = [2; err_code EConfig]).
 Proof. exact set_edition. Qed.
 Print Assumptions C18_edition_values.
+(* ... and on every later configuration change, whichever entry it writes: the edition in the configuration after the change is
+   validated (a refused value stays in the configuration, so changes keep being refused until a valid edition is set) *)
+Theorem C18_every_change_validates : forall cfgv st now slot v,
+  let '(out, cfgv', _, _) := step_op cfgv st now (OSetCfg slot v) in
+  cfgv' = set_nth cfgv (Z.to_nat slot) v /\
+  (mem (nth 6 cfgv' 0) iso_editions = true -> out = []) /\ (mem (nth 6 cfgv' 0) iso_editions = false -> out = [2; err_code EConfig]).
+Proof. exact set_config_validates. Qed.
+Print Assumptions C18_every_change_validates.
